@@ -414,7 +414,72 @@ fn switch_and_adjacent_argument_share_names(case: &mut Case) {
     let _ = first;
 }
 
+/// The help switch of a subcommand takes part in clusters like the flags of that subcommand,
+/// also when its letter is not the one the top level uses: `fetch -K -h` / `fetch -Kh`
+fn subcommand_help_letter_in_cluster(case: &mut Case) {
+    let mut rng = case.rng(10);
+    let sub_custom = rng.chance(1, 2);
+    let mut copts = OptSpec::plain(Spec::Seq(vec![Spec::Item(Item {
+        id: 11,
+        names: Names::short('K'),
+        help: None,
+        leaf: Leaf::Switch,
+    })]));
+    copts.descr = Some("D10-descr".into());
+    let mut root_help = None;
+    let letter = if sub_custom {
+        // the subcommand renames its help switch, the top level keeps `-h`
+        copts.help_names = Some(Names {
+            shorts: vec!['?'],
+            longs: vec!["usage".to_string()],
+            envs: vec![],
+        });
+        '?'
+    } else {
+        // the top level renames its help switch to a long name only, the subcommand keeps `-h`
+        root_help = Some(Names::long("usage"));
+        'h'
+    };
+    let cmd = Spec::Cmd(Box::new(CmdSpec {
+        id: 10,
+        names: vec!["fetch".to_string()],
+        shorts: vec![],
+        help: None,
+        adjacent: false,
+        opts: copts,
+    }));
+    let mut spec = OptSpec::plain(Spec::Seq(vec![cmd]));
+    spec.help_names = root_help;
+    let b = Bench::new(case, spec);
+    let split = vec![
+        b"fetch".to_vec(),
+        b"-K".to_vec(),
+        format!("-{}", letter).into_bytes(),
+    ];
+    let fused = vec![b"fetch".to_vec(), format!("-K{}", letter).into_bytes()];
+    let (o_split, _) = b.run(case, &split, "builtin-switch-of-subcommand-next-to-flag");
+    let (o_fused, _) = b.run(case, &fused, "builtin-switch-of-subcommand-in-cluster");
+    case.rep.count("pairs");
+    if o_split != o_fused && !matches!(o_fused, Outcome::Panic(_) | Outcome::FuelExhausted) {
+        case.rep.violation(
+            "respell:builtin-switch-of-subcommand-in-cluster",
+            "respelling",
+            case.index,
+            b.detail(
+                &fused,
+                "builtin-switch-of-subcommand-in-cluster",
+                &format!("the outcome of {}: {}", show_argv(&split).render(), o_split.show()),
+                &o_fused,
+            ),
+        );
+    }
+}
+
 pub fn run_case(case: &mut Case) {
+    if case.index % 64 == 49 {
+        subcommand_help_letter_in_cluster(case);
+        return;
+    }
     if case.index % 64 == 33 {
         word_inside_repeated_group(case);
         return;
